@@ -48,7 +48,7 @@ pub fn expected_table(st: &St) -> Vec<(u64, u32, Option<i32>)> {
         }
         let Some(k) = s.reg_key else { continue };
         match &s.k {
-            K::Ping(_) | K::Channel(_) | K::Exec(_) | K::Stream(_) => out.push((k as u64, mask_of(1, 0, true), None)),
+            K::Ping(_) | K::Channel(_) | K::Exec(_) | K::Stream(_) | K::Sig(_) => out.push((k as u64, mask_of(1, 0, true), None)),
             K::Life(l) => {
                 if l.has_ping {
                     out.push((k as u64 + 1, mask_of(1, 0, true), None));
